@@ -288,6 +288,29 @@ pub fn build_cases(ctx: &Ctx, rng: &mut Rng) -> Vec<Case> {
             push(alg, lv, Plan::Walk { from: 0, count: total }, rng, &mut cases);
         }
     }
+    // tall trees: H15 end to end (quick: three hashes, one point each), thorough also H15 inside
+    // multi-level keys and one H20 tree; H25 is out of reach for any execution-based check
+    let tall: Vec<(Alg, Vec<(u32, u32)>, Vec<u64>)> = if ctx.quick() {
+        vec![
+            (Alg::Sha256_256, vec![(15, 4)], vec![32767]),
+            (Alg::Sha256_128, vec![(15, 2)], vec![12345]),
+            (Alg::Shake256_128, vec![(15, 1)], vec![0]),
+        ]
+    } else {
+        let mut v = vec![];
+        for alg in model::ALL_ALGS {
+            let w = if alg.is_shake() { 2 } else { 4 };
+            v.push((alg, vec![(15, w)], vec![0, 16384, 32767]));
+            v.push((alg, vec![(15, w), (2, 8)], vec![4 * 32767 + 3, 65536]));
+            v.push((alg, vec![(2, 8), (15, w)], vec![32767, 32768]));
+        }
+        v.push((Alg::Sha256_128, vec![(20, 2)], vec![1048575]));
+        v.push((Alg::Sha256_256, vec![(20, 1)], vec![524288]));
+        v
+    };
+    for (alg, spec, pts) in tall {
+        push(alg, levels(&spec), Plan::Points(pts), rng, &mut cases);
+    }
     // bigger walks, split into contiguous ranges so that they parallelise
     let big: Vec<(Alg, Vec<(u32, u32)>, u64)> = if ctx.quick() {
         vec![(Alg::Sha256_256, vec![(5, 4), (5, 4)], 8), (Alg::Sha256_192, vec![(5, 2), (5, 8)], 8)]
@@ -360,7 +383,7 @@ pub fn run(ctx: &Ctx) -> Report {
     let mut rep = par_run(ctx, cases, |c, w| run_case("C01", c, w, ctx, &c01_hook));
     rep.count("keys", n_cases as i128);
     rep.rule = "every released signature is verified through hbs_lms::verify, VerifyingKey+Signature and VerifyingKey+VerifierSignature; \
-                cases = (hash, parameter list, counter, message) from a grid (6 hashes x W x H2/H5 single level, mixed 2..8-level lists, H10 levels) at \
+                cases = (hash, parameter list, counter, message) from a grid (6 hashes x W x H2/H5 single level, mixed 2..8-level lists, H10 levels, H15 trees (thorough: also inside multi-level keys, and H20)) at \
                 boundary counters (0, 1, around every subtree roll-over, last) plus complete lifetime walks through the callback chain alternating the three signing entry points; \
                 distinct_nontrivial = distinct (hash, parameter list, counter, message-length class) with >1 level or counter>0 or (n,W) outside SHA-256/32 W1/W2"
         .into();
